@@ -309,6 +309,13 @@ func genC12(r *Rng, tier string) *Plan {
 			g.P.Add(o)
 		}
 	}
+	if r.Chance(1, 10) {
+		// the final run sees every timestamp ahead of its clock, by hours to years (the clock was set
+		// back, or the files live on a server whose clock is ahead); order and distances between files
+		// are what they were. Only here, right in front of the last run: external writes *after* such a
+		// jump would be stamped older than what they replace, which is outside assumption E1.
+		g.P.Add(Op{K: "shift-mtimes", N: Pick(r, []int64{3600, 86400, 400 * 86400, 20 * 365 * 86400}), Label: "timestamps-ahead-of-clock"})
+	}
 	g.Run(DefaultFlags, "final")
 	return g.P
 }
